@@ -1002,7 +1002,7 @@ func c17more(p *Prog, r *Report) {
 			r.Anchor(rule, "node.(*core).eventDiff")
 			return
 		}
-		loops := naturalLoops(fn)
+		_ = naturalLoops
 		n := 0
 		for _, c := range callsIn(fn, storeM("ParticipantEvents", "GetEvent")) {
 			cv, ok := c.(*ssa.Call)
@@ -1027,29 +1027,10 @@ func c17more(p *Prog, r *Report) {
 						continue
 					}
 					tested = true
-					// from s: must return a non-nil error without re-entering a loop that contains the call
-					seen := map[*ssa.BasicBlock]bool{}
-					stack := []*ssa.BasicBlock{s}
-					for len(stack) > 0 && bad == "" {
-						x := stack[len(stack)-1]
-						stack = stack[:len(stack)-1]
-						if seen[x] {
-							continue
-						}
-						seen[x] = true
-						for _, lp := range loops {
-							if lp.head == x && lp.body[cv.Block()] {
-								bad = "the loop continues at " + p.ipos(x.Instrs[0])
-							}
-						}
-						if ret, isRet := x.Instrs[len(x.Instrs)-1].(*ssa.Return); isRet {
-							e := ret.Results[len(ret.Results)-1]
-							if isNilConst(e) {
-								bad = "nil is returned at " + p.ipos(ret)
-							}
-							continue
-						}
-						stack = append(stack, x.Succs...)
+					// from s: every feasible path (jump threading through the result temporaries of an inlined helper)
+					// ends in a return of a non-nil error
+					if !errorExit(b, s) {
+						bad = "from the failing edge at " + p.ipos(b.Instrs[len(b.Instrs)-1]) + " a path does not end in an error return"
 					}
 				}
 			}
